@@ -704,18 +704,20 @@ def verify_directory_hash_subcommand(
     if hash_format is None:
         generation = -1
         # inspect the history and use all documented algorithms as the basis of verification
-        for hash_list in existing_history.hash_lists:
-            # generations created without directory hashes have no root hash
-            if hash_list.process_info.root_media_hash is None:
-                continue
-            if hash_list.generation_number > generation:
-                # add each hash entry's format to the list of formats
-                if len(hash_list.process_info.root_media_hash.hash_entries) > 0:
-                    for entry in hash_list.process_info.root_media_hash.hash_entries:
-                        entry_hash_format = entry.hash_format
-                        # do not permit duplicate entries in the list
-                        if entry_hash_format not in hash_formats:
-                            hash_formats.append(entry_hash_format)
+        # nested histories may have been recorded with other formats, so all histories are inspected
+        for history in MHLHistory.walk_child_histories(existing_history):
+            for hash_list in history.hash_lists:
+                # generations created without directory hashes have no root hash
+                if hash_list.process_info.root_media_hash is None:
+                    continue
+                if hash_list.generation_number > generation:
+                    # add each hash entry's format to the list of formats
+                    if len(hash_list.process_info.root_media_hash.hash_entries) > 0:
+                        for entry in hash_list.process_info.root_media_hash.hash_entries:
+                            entry_hash_format = entry.hash_format
+                            # do not permit duplicate entries in the list
+                            if entry_hash_format not in hash_formats:
+                                hash_formats.append(entry_hash_format)
         if not hash_formats:
             hash_formats.append("c4")
             logger.verbose(f"default hash format: c4")
@@ -780,6 +782,10 @@ def verify_directory_hash_subcommand(
 
                 num_successful_verifications = 0
                 for directory_hash_entry in directory_hash_entries:
+                    # only the formats that are calculated in this run can be compared
+                    if directory_hash_entry.hash_format not in hash_format_list:
+                        continue
+
                     content_hash = None
                     structure_hash = None
 
@@ -859,6 +865,9 @@ def verify_directory_hash_subcommand(
                 if len(root_hash_entries) > 0:
                     for root_hash_entry in root_hash_entries:
                         hash_format = root_hash_entry.hash_format
+                        # only the formats that are calculated in this run can be compared
+                        if hash_format not in hash_format_list:
+                            continue
                         found_hash_format = False
                         dir_content_hash = None
                         dir_structure_hash = None
